@@ -1,7 +1,7 @@
 """C07 - call_next walks down the resolution order one method at a time.
 
 Generated: hierarchy (multiple inheritance, ABCs, protocols) x method set over plain classes in which any
-subset of methods delegates with call_next (same or other arguments) or f.next (plain functions), from
+subset of methods delegates with call_next (same or other arguments) or f.next / self.f.next, from
 functions, plain methods and OvldBase methods; 1-3 arguments, keyword-only parameters, priorities, replaced
 identical signatures (tiebreak chains), chains ending in a tied rank.
 Oracle (vlib.model.chain): from method m with arguments a, if m is applicable to a the next body is the
@@ -44,10 +44,9 @@ def case_strategy():
             methods.append(m)
         arities = {len(m["pos"]) for m in methods}
         for m in methods:
-            fns = ["call_next", "call_next", "call_next"] + (["next"] if ms["host"] == "func" and not m["kw"] else [])
-            own = {"fn": draw(st.sampled_from(fns)), "npos": len(m["pos"]), "kws": []}
-            if own["fn"] == "call_next":
-                own["kws"] = [p["name"] for p in m["kw"]]
+            # f.next(...) in plain functions, self.f.next(...) in methods with self; with the keyword arguments too
+            fns = ["call_next", "call_next", "call_next", "next"]
+            own = {"fn": draw(st.sampled_from(fns)), "npos": len(m["pos"]), "kws": [p["name"] for p in m["kw"]]}
             sites = [own]
             if draw(st.integers(0, 2)) == 0:
                 sites.append({"fn": draw(st.sampled_from(["call_next", "recurse"])),
@@ -190,7 +189,7 @@ class Check:
         "ambiguity error, over a hierarchy with multiple inheritance or with >=2 arguments; distinct by case hash."
     )
     assumptions = [
-        "f.next only in plain top-level functions (documented as not equivalent elsewhere)",
+        "f.next is exercised on the function it was written for (functions, methods with self), not through variants",
         "the continuation from a method that the reference chain reaches only through a tied rank is not asserted",
     ]
 
